@@ -45,12 +45,17 @@ func c17Txs() map[string]transaction.Transaction {
 		"t1": world.MakeTx(I, Rc.Addr, "c17-1", []byte("contract-1"), spice.Melange{}, 171),
 		"t2": world.MakeTx(I, Rc.Addr, "c17-2", []byte("contract-2"), spice.Melange{}, 172),
 		"t3": world.MakeTx(Rc, I.Addr, "c17-3", []byte("contract-3"), spice.Melange{}, 173),
+		// same issuer, a third wallet as receiver: shares the issuer's list with t1/t2 and nothing else
+		"t4": world.MakeTx(I, world.Cast("R").Addr, "c17-4", []byte("contract-4"), spice.Melange{}, 174),
 	}
 }
 
 func (w *c17World) addr(who string) string {
 	if who == "I" {
 		return world.Cast("A").Addr
+	}
+	if who == "D" {
+		return world.Cast("R").Addr
 	}
 	return world.Cast("B").Addr
 }
@@ -159,7 +164,7 @@ func c17Body(setup string, clients []string) func(x *sched.X) {
 		vsched.Join(hs...)
 		vsched.Quiet(true)
 		// final listings at quiescence
-		for _, who := range []string{"I", "Rc"} {
+		for _, who := range c17Parties {
 			c := &c17Call{Kind: "read", By: who}
 			w.do(c)
 			x.Vars["final-"+who] = c
@@ -167,20 +172,43 @@ func c17Body(setup string, clients []string) func(x *sched.X) {
 		for _, c := range w.calls {
 			x.Obsf("%s:%s:%s=%v%v", c.Kind, c.Tx, c.By, c.ok, c.got)
 		}
-		x.Obsf("final I=%v Rc=%v", x.Vars["final-I"].(*c17Call).got, x.Vars["final-Rc"].(*c17Call).got)
+		x.Obsf("final I=%v Rc=%v D=%v", x.Vars["final-I"].(*c17Call).got, x.Vars["final-Rc"].(*c17Call).got, x.Vars["final-D"].(*c17Call).got)
 		x.Vars["dump"] = c17Cache.VerifKeys()
 	}
 }
 
-// party reports whether the address (I / Rc) is issuer or receiver of tx label.
+var c17Parties = []string{"I", "Rc", "D"}
+
+// c17Party reports whether the address (I / Rc / D) is issuer or receiver of tx label.
 func c17Party(tx, who string) bool {
 	switch tx {
-	case "t1", "t2":
-		return true // issuer A(I), receiver B(Rc): both parties
-	case "t3":
-		return true
+	case "t1", "t2", "t3":
+		return who == "I" || who == "Rc"
+	case "t4":
+		return who == "I" || who == "D"
 	}
 	return false
+}
+
+// c17Receiver names the receiver of tx label.
+func c17Receiver(tx string) string {
+	switch tx {
+	case "t3":
+		return "I"
+	case "t4":
+		return "D"
+	}
+	return "Rc"
+}
+
+func c17Role(who string) string {
+	switch who {
+	case "I":
+		return "issuer"
+	case "D":
+		return "third-wallet"
+	}
+	return "receiver"
 }
 
 func c17Oracle(name string) func(x *sched.X, r *vsched.Result) []common.Violation {
@@ -203,7 +231,7 @@ func c17Oracle(name string) func(x *sched.X, r *vsched.Result) []common.Violatio
 			if c.Kind == "remove" && c.ok {
 				removed[c.Tx] = true
 			}
-			if c.Kind == "remove" && c.ok && c.By != "Rc" {
+			if c.Kind == "remove" && c.ok && c.By != c17Receiver(c.Tx) {
 				out = append(out, common.Violation{Predicate: "C17.receiver-only", Key: "C17.removed-by-non-receiver", What: fmt.Sprintf("%s: removal of %s by %s succeeded", name, c.Tx, c.By)})
 			}
 		}
@@ -221,8 +249,11 @@ func c17Oracle(name string) func(x *sched.X, r *vsched.Result) []common.Violatio
 		sort.Strings(want)
 		// the results of the saves and removals and the two final listings must be those of some sequential
 		// order of the calls that respects their real-time order
-		finalI, finalRc := x.Vars["final-I"].(*c17Call).got, x.Vars["final-Rc"].(*c17Call).got
-		lin, orders := c17Linearizable(w.calls, finalI, finalRc)
+		finals := map[string][]string{}
+		for _, who := range c17Parties {
+			finals[who] = x.Vars["final-"+who].(*c17Call).got
+		}
+		lin, orders := c17Linearizable(w.calls, finals)
 		x.Vars["orders"] = orders
 		if !lin {
 			var res []string
@@ -232,14 +263,20 @@ func c17Oracle(name string) func(x *sched.X, r *vsched.Result) []common.Violatio
 				}
 			}
 			out = append(out, common.Violation{Predicate: "C17.sequential-order", Key: "C17.no-sequential-order/" + name,
-				What: fmt.Sprintf("%s: results %v with final lists issuer=%v receiver=%v are produced by none of the %d admissible sequential orders of the calls", name, res, finalI, finalRc, orders)})
+				What: fmt.Sprintf("%s: results %v with final lists issuer=%v receiver=%v third-wallet=%v are produced by none of the %d admissible sequential orders of the calls", name, res, finals["I"], finals["Rc"], finals["D"], orders)})
 		}
-		for _, who := range []string{"I", "Rc"} {
+		for _, who := range c17Parties {
 			if lin {
 				break
 			}
 			got := x.Vars["final-"+who].(*c17Call).got
-			if strings.Join(got, ",") != strings.Join(want, ",") {
+			var wantWho []string
+			for _, t := range want {
+				if c17Party(t, who) {
+					wantWho = append(wantWho, t)
+				}
+			}
+			if strings.Join(got, ",") != strings.Join(wantWho, ",") {
 				kind := "lost"
 				gs := map[string]int{}
 				for _, g := range got {
@@ -253,12 +290,9 @@ func c17Oracle(name string) func(x *sched.X, r *vsched.Result) []common.Violatio
 						kind = "duplicate"
 					}
 				}
-				role := "issuer"
-				if who == "Rc" {
-					role = "receiver"
-				}
+				role := c17Role(who)
 				out = append(out, common.Violation{Predicate: "C17.final-listing", Key: "C17.final-listing-" + kind + "/" + role,
-					What: fmt.Sprintf("%s: at quiescence the %s's list is %v, successful saves minus removals are %v", name, role, got, want)})
+					What: fmt.Sprintf("%s: at quiescence the %s's list is %v, successful saves minus removals (of that wallet) are %v", name, role, got, wantWho)})
 			}
 		}
 		// interval specification for concurrent reads
@@ -269,10 +303,10 @@ func c17Oracle(name string) func(x *sched.X, r *vsched.Result) []common.Violatio
 			must := map[string]bool{}
 			may := map[string]bool{}
 			for _, c := range w.calls {
-				if c.Kind == "save" && c.start < rd.end {
+				if c.Kind == "save" && c.start < rd.end && c17Party(c.Tx, rd.By) {
 					may[c.Tx] = true
 				}
-				if c.Kind == "save" && c.ok && c.end < rd.start {
+				if c.Kind == "save" && c.ok && c.end < rd.start && c17Party(c.Tx, rd.By) {
 					must[c.Tx] = true
 				}
 			}
@@ -301,19 +335,14 @@ func c17Oracle(name string) func(x *sched.X, r *vsched.Result) []common.Violatio
 // c17Linearizable enumerates the orders of the save/remove calls that respect real time (a call that ended
 // before another started comes first) and runs the map reference over each; it reports whether one of them
 // reproduces every result and both final listings, and how many orders were admissible.
-func c17Linearizable(calls []*c17Call, finalI, finalRc []string) (bool, int) {
+func c17Linearizable(calls []*c17Call, finals map[string][]string) (bool, int) {
 	var cs []*c17Call
 	for _, c := range calls {
 		if c.Kind == "save" || c.Kind == "remove" {
 			cs = append(cs, c)
 		}
 	}
-	receiver := func(tx string) string {
-		if tx == "t3" {
-			return "I"
-		}
-		return "Rc"
-	}
+	receiver := c17Receiver
 	used := make([]bool, len(cs))
 	present := map[string]bool{}
 	orders, found := 0, false
@@ -328,7 +357,19 @@ func c17Linearizable(calls []*c17Call, finalI, finalRc []string) (bool, int) {
 				}
 			}
 			sort.Strings(l)
-			if strings.Join(l, ",") == strings.Join(finalI, ",") && strings.Join(l, ",") == strings.Join(finalRc, ",") {
+			all := true
+			for who, final := range finals {
+				var lw []string
+				for _, t := range l {
+					if c17Party(t, who) {
+						lw = append(lw, t)
+					}
+				}
+				if strings.Join(lw, ",") != strings.Join(final, ",") {
+					all = false
+				}
+			}
+			if all {
 				found = true
 			}
 			return
@@ -400,6 +441,10 @@ func c17Scenarios() map[string]*sched.Scenario {
 	add("K/remove||re-save||save", "save:t1", "remove:t1:Rc", "save:t1", "save:t2")
 	add("L/save,remove||save-same", "", "save:t1,remove:t1:Rc", "save:t1")
 	add("M/save||balance-cache", "save:t1", "save:t2", "balsave:I,balrm:Rc")
+	// calls that share one wallet's list only: the issuer's list is touched by a removal (receiver Rc) and a save (receiver D)
+	add("N/remove||save-other-receiver", "save:t1", "remove:t1:Rc", "save:t4")
+	add("O/remove||remove-other-receiver", "save:t1,save:t4", "remove:t1:Rc", "remove:t4:D")
+	add("P/save||save-other-receiver||read", "", "save:t1", "save:t4", "read:I")
 	return m
 }
 
